@@ -83,6 +83,19 @@ func c11Sweep(t failer, test string, in []byte) (n uint64, feasible bool, nbudge
 		if b != 0 && b < math.MaxUint64 && steps > b+1 {
 			violation(t, "C11", test, c, "budget %d: the parser executed %d steps (> n+1) on %s", b, steps, c.InputQ)
 		}
+		// the budget in force is the one given last: an earlier WithMaxExpressions is replaced, also by 0 (= no limit)
+		if nbudgets%3 == 1 {
+			ev2, cerr2 := bexpr.CreateEvaluator(string(in), bexpr.WithMaxExpressions(1), bexpr.WithMaxExpressions(b))
+			if (ev2 == nil) != (ev == nil) || (cerr2 == nil) != (cerr == nil) || (cerr != nil && cerr2.Error() != cerr.Error()) {
+				violation(t, "C11", test, c, "WithMaxExpressions(1), WithMaxExpressions(%d) gives error %v, WithMaxExpressions(%d) alone %v on %s", b, cerr2, b, cerr, c.InputQ)
+			}
+			if feasible && b != 0 {
+				ev3, cerr3 := bexpr.CreateEvaluator(string(in), bexpr.WithMaxExpressions(b), bexpr.WithMaxExpressions(0))
+				if (cerr3 == nil) != (uErr == nil) || (cerr3 != nil && cerr3.Error() != uErr.Error()) || (ev3 == nil) != (uErr != nil) {
+					violation(t, "C11", test, c, "WithMaxExpressions(%d), WithMaxExpressions(0) must parse without limit on %s: error %v, the unlimited parse gives %v", b, c.InputQ, cerr3, uErr)
+				}
+			}
+		}
 		sufficient := feasible && (b == 0 || b >= N)
 		if sufficient {
 			if errText(err) != errText(uErr) || !reflect.DeepEqual(ast, uAST) {
